@@ -7,11 +7,12 @@
 static uint8_t *RX;                 /* the receive buffer handed to parseFrame */
 static lltd_iface_state *ST;
 static int g_class;                 /* which oracle on_send applies */
-enum { CL_NONE = 0, CL_QUERY, CL_HELLO, CL_EMIT, CL_QLTLV, CL_ANY, CL_PAIR, CL_REL, CL_IL };
+enum { CL_NONE = 0, CL_QUERY, CL_HELLO, CL_EMIT, CL_QLTLV, CL_ANY, CL_PAIR, CL_REL, CL_IL, CL_LONG };
 
 static uint8_t g_rec_desc[20]; static unsigned g_rec_cnt; static bool g_rec_valid;
 static size_t g_last_len;
 static void *g_expect_ctx;         /* 0 = interface A */
+static unsigned ql_cnt; static size_t ql_len; static unsigned ql_sends;
 static bool g_two_ifaces;          /* both interfaces transmit in this harness */
 
 static void oracle_query(const vcfg *c, const uint8_t *f, size_t n);
@@ -26,6 +27,7 @@ static void oracle_il(void *ctx, const uint8_t *f, size_t n);
 static void on_send(void *ctx, const uint8_t *f, size_t n) {
     const vcfg *c = (const vcfg *)ctx;
     if (g_class == CL_IL) { oracle_il(ctx, f, n); V_WITNESS("a frame was transmitted"); return; }
+    if (g_class == CL_LONG) { ql_sends++; ql_len = n; if (n >= 34) { check_tx_common(c, f, n); ql_cnt = be16(f + 32); } V_WITNESS("a frame was transmitted"); return; }
     V_ASSERT(ctx == g_expect_ctx || (g_expect_ctx == 0 && ctx == (void *)&g_cfgA) || (g_two_ifaces && ctx == (void *)&g_cfgB), "C02,C17: frames leave on the interface the request arrived on");
     g_last_len = n;
     if (n >= 32) {
@@ -123,7 +125,7 @@ void h_query(void) {
     unsigned rest = pre_n - exp;
     struct snap sn; snapshot_list(ST, &sn);
     assert_inv_snap(ST, &sn);
-    V_ASSERT(sn.n == rest, "C07: reported observations are dropped, unreported ones are kept for later Queries");
+    V_ASSERT(sn.n == rest, "C07,C10: reported observations are dropped, unreported ones are kept for later Queries");
     for (unsigned i = 0; i < KP; i++) {
         if (i < sn.n) {
             bool found = false;
@@ -143,6 +145,43 @@ void h_query(void) {
     if (!in.st.known) V_ASSERT(mac6_eq(ST->mapper_apparent.a, in.frame + F_ESRC), "C05: a Query that opens the session records its Ethernet source as apparent mapper");
     V_ASSERT(ST->mapper_seq == be16(in.frame + F_SEQ), "C07: sequence number of the Query remembered");
     V_WITNESS("h_query end");
+}
+
+/* C07: long observation record (counts that exceed 8-bit arithmetic, jumbo MTU): NLONG recorded observations of
+ * arbitrary content, one Query: all NLONG are listed (they fit: capacity 459 at MTU 9216) and all are retired. */
+#ifndef NLONG
+#define NLONG 300
+#endif
+void h_query_long(void) {
+    load_inputs();
+    setup_platform(0);
+    V_ASSUME(in.st.known <= 1);
+    lltd_iface_state *st = (lltd_iface_state *)v_alloc(sizeof(*st));
+    memset(st, 0, sizeof(*st));
+    st->iface_ctx = &g_cfgA; st->next = 0; g_iface_states = st;
+    probe_t *head = 0;
+    for (unsigned i = 0; i < NLONG; i++) {
+        probe_t *p = (probe_t *)v_alloc(sizeof(*p));     /* content arbitrary (fresh memory) */
+        p->nextProbe = head; head = p;
+    }
+    st->see_list = head; st->see_list_count = NLONG;
+    ST = st;
+    RX = make_frame(in.frame, g_cfgA.mtu);
+    g_class = CL_LONG;
+    V_ASSUME(in.frame[F_TOS] == 0 && in.frame[F_OP] == opcode_query);
+    long live0 = g_live_blocks;
+    parseFrame(RX, &g_cfgA);
+    V_ASSERT(ql_sends == 1, "C07: exactly one QueryResp per Query");
+    size_t cap = (g_cfgA.mtu - 34) / 20;
+    unsigned exp = NLONG > cap ? (unsigned)cap : NLONG;
+    V_ASSERT(ql_cnt == (exp | (NLONG > cap ? 0x8000u : 0u)), "C07: count field lists every recorded observation that fits, 'more' iff some remain (long record)");
+    V_ASSERT(ql_len == 34 + 20 * (size_t)exp, "C02: QueryResp length is 34 + 20 per descriptor (long record)");
+    V_ASSERT(ST->see_list_count == NLONG - exp, "C07: every reported observation is retired, none is listed again by the next Query (long record)");
+    unsigned n = 0; probe_t *p = ST->see_list;
+    for (unsigned i = 0; i < NLONG + 1; i++) { if (p) { n++; p = (probe_t *)p->nextProbe; } }
+    V_ASSERT(n == NLONG - exp && p == 0, "C07: the record holds exactly the unreported observations afterwards (long record)");
+    V_ASSERT(g_live_blocks == live0 - (long)exp, "C19: reported observations freed (long record)");
+    V_WITNESS("h_query_long end");
 }
 
 /* ============================================================ Probe/Train class (C07, C19) */
